@@ -127,6 +127,10 @@ func classify(c Case) core.Class {
 	}
 	cl.Labels = append(cl.Labels, "entry:"+c.Entry, "gen:"+c.Gen, "len:"+lenBucket(len(c.input())))
 	for _, m := range c.Mut {
+		if strings.HasPrefix(m, "dir:") || strings.HasPrefix(m, "in:") || strings.HasPrefix(m, "nest:") || m == "strip-markers" || m == "after-syntax-error" {
+			cl.Labels = append(cl.Labels, m) // classes of the directive family
+			continue
+		}
 		cl.Labels = append(cl.Labels, "mut:"+m)
 	}
 	if len(c.Mut) == 0 {
@@ -171,6 +175,19 @@ func classify(c Case) core.Class {
 		cl.Fingerprint = strings.Join([]string{c.Entry, "deep", c.Deep.Kind, depthBucket(c.Deep.Depth), bal, he}, "|")
 		return cl
 	}
+	if c.Gen == "directive" {
+		cont, rec := "", "clean"
+		for _, m := range c.Mut {
+			if strings.HasPrefix(m, "in:") {
+				cont = m
+			}
+			if m == "after-syntax-error" {
+				rec = "recovery"
+			}
+		}
+		cl.Fingerprint = strings.Join([]string{c.Entry, c.Gen, mut, cont, rec, he}, "|")
+		return cl
+	}
 	cl.Fingerprint = strings.Join([]string{c.Entry, c.Gen, mut, lenBucket(len(c.Src)), he}, "|")
 	return cl
 }
@@ -190,7 +207,7 @@ func TestC17a(t *testing.T) {
 	tmPrefix = "a_"
 	core.Run(t, core.Spec[Case]{
 		Property: "C17", Sub: "a",
-		Rule: "inputs: random bytes (biased to scanner-relevant characters), grammar-generated native config/expression/template/traversal/JSON text, and the repo's own corpora (hclsyntax/fuzz, hclwrite/fuzz, json/fuzz, specsuite, profiles/*.yaotl), then 0-3 mutations out of flip/delete/dup/repeat/insert-token/truncate/bad-UTF-8/BOM/CRLF/splice; 12% of cases feed one syntax to another entry point; size <= 16 KiB quick / 256 KiB thorough. Entry points: hclsyntax.ParseConfig/ParseExpression/ParseTemplate/ParseTraversalAbs/LexConfig/LexExpression/LexTemplate, json.Parse/ParseExpression, hclwrite.ParseConfig. Oracle: no panic, returns within 30 s, token stream covers the input (ascending, no overlap, Bytes == src[range], gaps only space/tab in main mode and none in template modes, leading BOM, EOF at len; line numbers = 1 + preceding newlines for well-formed UTF-8 input), every node/traversal/diagnostic range inside the input with Start<=End, children inside parents, and with no error diagnostic evaluation (nil/empty/populated context), JustAttributes, hcldec.Decode (derived permissive spec + fixed spec) and gohcl.DecodeBody (remain) do not panic. Non-trivial: the input got past the lexer with >=1 token other than EOF/Newline/Invalid/BadUTF8 (JSON: first non-blank byte can start a value). distinct = (entry point, generator class, first mutation, length bucket, has-errors)",
+		Rule: "inputs: random bytes (biased to scanner-relevant characters), grammar-generated native config/expression/template/traversal/JSON text, and the repo's own corpora (hclsyntax/fuzz, hclwrite/fuzz, json/fuzz, specsuite, profiles/*.yaotl), plus a template-directive family (well-formed if/else/endif/for/in/endfor directives and their near-misses: keyword followed by keyword/identifier such as `else if x`, missing/duplicated keyword, keyword in the wrong block, two-variable for with junk at every position, unknown keywords elif/elseif/elsif/end, nests cut at every token boundary, strip markers; nested to depth 3; in quoted strings, heredocs, bare templates and JSON strings; optionally after an earlier syntax error so that the parser is in recovery mode), then 0-3 mutations out of flip/delete/dup/repeat/insert-token/truncate/bad-UTF-8/BOM/CRLF/splice; 12% of cases feed one syntax to another entry point; size <= 16 KiB quick / 256 KiB thorough. Entry points: hclsyntax.ParseConfig/ParseExpression/ParseTemplate/ParseTraversalAbs/LexConfig/LexExpression/LexTemplate, json.Parse/ParseExpression, hclwrite.ParseConfig. Oracle: no panic, returns within 30 s, token stream covers the input (ascending, no overlap, Bytes == src[range], gaps only space/tab in main mode and none in template modes, leading BOM, EOF at len; line numbers = 1 + preceding newlines for well-formed UTF-8 input), every node/traversal/diagnostic range inside the input with Start<=End, children inside parents, and with no error diagnostic evaluation (nil/empty/populated context), JustAttributes, hcldec.Decode (derived permissive spec + fixed spec) and gohcl.DecodeBody (remain) do not panic. Non-trivial: the input got past the lexer with >=1 token other than EOF/Newline/Invalid/BadUTF8 (JSON: first non-blank byte can start a value). distinct = (entry point, generator class, first mutation, length bucket, has-errors)",
 		Gen:   genCase, Check: check, Classify: classify,
 		Assumptions: assumptions,
 	})
